@@ -249,3 +249,39 @@ pub fn redex_bodies(k: usize) -> Vec<(String, &'static str)> {
 
 /// Extra rules some redex bodies refer to.
 pub const REDEX_EXTRA_RULES: &str = " lit = _{ \"a\" | \"ab\" } lit2 = { \"b\" } ";
+
+/// Stack-transaction slice: a push before a choice; inside the first alternative a *successful*
+/// group that pushes again and contains a *successful nested* group popping across both pushes
+/// (a cleared snapshot merged into a parent that owns only some of the popped elements); then a
+/// failure; then an alternative that reads the stack.
+pub fn stack_transaction_bodies() -> Vec<String> {
+    let nested = ["d2", "p2", "dp", "(DROP ~ DROP)?", "(POP ~ POP)?", "(DROP ~ POP)*", "(DROP ~ DROP | \"x\")", "(DROP ~ PEEK ~ DROP)?", "DROP ~ DROP", "POP", "DROP"];
+    let mut v = vec![];
+    for x in ["\"a\"", "\"b\""] {
+        for y in ["\"a\"", "\"b\""] {
+            let mut mids: Vec<String> = vec![];
+            for n in &nested {
+                mids.push(format!("(PUSH({y}) ~ {n})?"));
+                mids.push(format!("(PUSH({y}) ~ {n})*"));
+                mids.push(format!("(PUSH({y}) ~ {n} | \"x\")"));
+                mids.push(format!("PUSH({y}) ~ {n}"));
+                mids.push(format!("(PUSH({y}) ~ PUSH({x}) ~ {n})?"));
+            }
+            for q in ["q1", "q2", "q3", "q4"] {
+                mids.push(q.to_string());
+            }
+            for m in &mids {
+                for z in ["\"x\"", "\"a\"", "!ANY"] {
+                    for rest in ["PEEK", "POP ~ \"a\"", "\"b\" ~ PEEK", "PEEK_ALL", "PEEK[0..1] ~ ANY", "\"a\" ~ POP_ALL"] {
+                        v.push(format!("PUSH({x}) ~ (({m} ~ {z}) | {rest})"));
+                    }
+                }
+                v.push(format!("PUSH({x}) ~ ({m} ~ \"x\")? ~ PEEK"));
+                v.push(format!("PUSH({x}) ~ ({m} ~ \"x\")* ~ POP_ALL"));
+                v.push(format!("PUSH({x}) ~ !({m} ~ \"x\") ~ PEEK"));
+            }
+        }
+    }
+    v
+}
+pub const STACK_TX_EXTRA_RULES: &str = " d2 = _{ DROP ~ DROP } p2 = _{ POP ~ POP } dp = _{ DROP ~ POP } q1 = _{ PUSH(\"b\") ~ d2 } q2 = _{ PUSH(\"b\") ~ p2 } q3 = _{ PUSH(\"a\") ~ dp } q4 = { PUSH(\"b\") ~ PUSH(\"a\") ~ d2 ~ DROP } ";
